@@ -247,6 +247,9 @@ def classify_output(text):
     """returns one of: pass, fail, timeout, crash, other"""
     if "panic: test timed out" in text:
         return "timeout"
+    if "panic: vlib:" in text:
+        # the harness itself gave up (no free port, fixture start failed): says nothing about the property
+        return "harness"
     if re.search(r"(?m)^--- FAIL", text) or re.search(r"(?m)^FAIL\s*$", text):
         return "fail"
     if "fatal error: runtime: out of memory" in text or "cannot allocate memory" in text:
